@@ -22,7 +22,7 @@
 
 #define VS_MAX_SLOTS 96
 #define VS_MAX_ARGS 16
-#define VS_MAX_RETS 16
+#define VS_MAX_RETS 40
 
 enum {
 	VT_NONE = 0, VT_BN = 1, VT_BUF = 2, VT_FP = 3, VT_FPX = 4, VT_EP = 5, VT_EP2 = 6, VT_EB = 7, VT_ED = 8,
